@@ -84,9 +84,13 @@ TEXTS["C08"] = {
 TEXTS["C09"] = {
     "text": "Coq proof that Close returns nil and the persister opened afterwards on the same path presents exactly abs of the state before Close via Get, Has and RangeKeys (each binding once), "
             "for histories split by any number of Close;Reopen cycles at arbitrary points; RangeKeys of an open persister presents the flushed map; operations on a closed DB/SerialDB never reach LevelDB. "
-            "Tied to the code by differential runs with real close/reopen cycles on LevelDB directories and by monitors.",
+            "RangeKeys with a handler that asks to stop after n visits delivers flushed pairs only, no key twice, exactly min(max(n,1), flushed) of them for DB / SerialDB / memorydb (LevelDB: the first ones in strictly ascending key order); "
+            "the sharded persister hands the handler to every shard (proved for every order of the shards: per-shard prefixes, between min(max(n,1), flushed) and max(n,1)+shards-1 visits; 'a false stops the whole iteration' is refuted by witness - a finding about sharded/shardedDB.go). "
+            "Destroy on an open persister, or Close;DestroyClosed, followed by the constructor on the same path gives the empty persister for every state and after every history (from a constructor state: exactly the constructor's state), "
+            "histories with destroy cycles follow the map a destroy cycle empties, the destroyed DB / SerialDB object answers ErrDBIsClosed (DB.Put/Remove: nil while the batch is not full, dropped), memorydb stays usable, and nothing called on a destroyed object reaches the path. "
+            "Tied to the code by differential runs with real close/reopen/destroy cycles on LevelDB directories (visit sequences judged by an acceptor proved sound) and by monitors.",
     "note": PERSIST_NOTE,
-    "technique": "Coq proof (abstraction preserved across Close;Reopen, induction over op lists with cycles) + differential correspondence check with real reopen + Go monitors",
+    "technique": "Coq proof (abstraction preserved across Close;Reopen and reset by destroy cycles, induction over op lists with cycles; early-stop envelope over every shard order with a verified acceptor) + differential correspondence check with real reopen / destroy + Go monitors",
 }
 TEXTS["C19"]["text"] += (" The sharded persister (model: list of persisters indexed by compute_id) refines ONE map; every op on k touches shard compute_id n k only; "
                          "RangeKeys is the duplicate-free union of the shards (Props/C19b.v), checked differentially through sharded.NewShardedPersister over DB/SerialDB/memorydb.")
